@@ -37,10 +37,10 @@ STREAMS = {
 BUDGET = {   # stream -> (quick: chunks, per chunk), (thorough: chunks, per chunk)
     'flat': ((12, 60), (48, 190)),
     'flat-clash': ((4, 60), (16, 130)),
-    'hsm': ((12, 12), (48, 50)),
-    'hsm-custom-sep': ((4, 10), (16, 36)),
-    'hsm-remove': ((4, 12), (16, 34)),
-    'hsm-enum': ((4, 10), (16, 28)),
+    'hsm': ((12, 12), (48, 40)),
+    'hsm-custom-sep': ((4, 10), (16, 28)),
+    'hsm-remove': ((4, 12), (16, 26)),
+    'hsm-enum': ((4, 10), (16, 22)),
 }
 
 
@@ -227,7 +227,7 @@ class C11(runner.Check):
                 'TM.Helpers.C11_event_method_eq_trigger', 'TM.Helpers.C11_event_method_exists',
                 'TM.Helpers.C11_trigger_exists',
                 'TM.Helpers.C11_to_iff_auto', 'TM.Helpers.C11_get_triggers_exact', 'TM.Helpers.C11_get_transitions_exact',
-                'TM.Helpers.C11_get_triggers_nested', 'TM.Helpers.C11_fires_known', 'TM.Helpers.C11_get_transitions_nested',
+                'TM.Helpers.C11_get_triggers_nested', 'TM.Helpers.C11_fires_known', 'TM.Helpers.C11_to_fires_everywhere', 'TM.Helpers.C11_get_transitions_nested',
                 'TM.Helpers.C11_no_overwrite', 'TM.Helpers.C11_override_only_replaces',
                 'TM.Helpers.C11_checked_assignment', 'TM.Helpers.C11_wrapper_binding',
                 'TM.Helpers.C11_trigger_ne_attribute', 'TM.Helpers.C11_names_injective')
